@@ -352,6 +352,28 @@ def execute(case):
 
     saved_temperature = [None]
     seen_replaced = [0]
+    def adopt_reported_options(why):
+        """a load is not a sampling-option call, but a library that persists the options in the state_dict changes
+        them legitimately on load: if every quantizer reports (hard_softmax, gumbel_softmax, disable_sampling) and all
+        agree, the reference adopts what the model reports where it differs from the script's calls - the samplers are
+        then held against that. On the pinned tree a load never changes them."""
+        if method != 'mps' or opts is None:
+            return
+        rep_ = set()
+        for q in rep.model.modules():
+            if isinstance(q, MPSBaseQtz):
+                try:
+                    rep_.add((bool(q.hard_softmax), bool(q.gumbel_softmax), bool(q.disable_sampling)))
+                except AttributeError:
+                    return
+        if len(rep_) != 1:
+            return
+        h_, g_, d_ = next(iter(rep_))
+        if (h_, g_, d_) != (opts['hard'], opts['gumbel'], opts['disable_sampling']):
+            bump('options_adopted_from_what_the_model_reports_after_' + why)
+            opts['hard'], opts['gumbel'], opts['disable_sampling'] = h_, g_, d_
+            participated.clear()
+
     check_frozen_set('construction')
     check_static('construction', 'after construction')
     cover['abstract_states'].add(repr(abstract_state()))
@@ -376,6 +398,7 @@ def execute(case):
                 break
             scan(rep.model)
             rep.perturb_skip = set(ref.frozen_t)
+            adopt_reported_options('restart')
             check_frozen_set('restart')
             check_static('restart', f'after op {idx} crash_restart')
             events.append(f'{idx} crash_restart state={abstract_state()}')
@@ -422,6 +445,8 @@ def execute(case):
             break
         if obs.get('aborted'):
             bump('fault_abort_forward')
+        if k == 'load_ckpt':
+            adopt_reported_options('load')
         if getattr(rep, 'objects_replaced', 0) != seen_replaced[0]:
             seen_replaced[0] = rep.objects_replaced
             scan(rep.model)                      # deepcopy / load_state_dict(assign=True): new objects, same model
